@@ -1,6 +1,7 @@
 // Conformance driver for NormalAndCurvatureEstimation (C09; spec/Normals.tla).  Exact lattices.
 //   drive_normals random <seed> <n> <out.ndjson>
 #include "vh.hpp"
+#include <Eigen/Eigenvalues>
 #include "romea_core_common/pointset/algorithms/NormalAndCurvatureEstimation.hpp"
 
 using namespace romea::core;
@@ -176,6 +177,67 @@ static void run(vh::Rng & r, int type, vh::Out & out)
   out.put(vh::Ev("range").i("dim", DIM).i("type", type).b("unit", unit).b("facing", facing).b("curvRange", cr));
 }
 
+// Generic clouds (curved, noisy): "the normal is the direction of least variance of the point's k nearest neighbours" and "the
+// curvature is the share of that variance", against an independent reference (exhaustive neighbour search and a double-precision
+// eigen-decomposition of the neighbours' covariance).  Points whose k-th and (k+1)-th neighbours are nearly equidistant, or whose
+// two smallest eigenvalues are close (relative gap below 0.05), are left out: there the statement does not single out one answer
+// at working precision.  Residuals in 1e-9 units; the specification bounds them.
+template<class PT, size_t DIM>
+static void leastVariance(vh::Rng & r, int type, vh::Out & out)
+{
+  using S = typename PT::Scalar;
+  auto uni = [&](double a, double b) {return a + (b - a) * ((double)r.range(0, 1000000000) / 1e9);};
+  const int k = (int)(r.coin(1, 3) ? r.pick(IV{3, 3, 4, 5, 30}) : r.range(3, 30));
+  const int n = (int)r.range(k + 1, r.coin(1, 4) ? 2000 : 300);
+  const int shape = (int)r.range(0, 2);                                  // curved, noisy curved, scattered
+  const double bend = uni(0.005, 0.08), noise = shape == 0 ? 0.0 : shape == 1 ? uni(0.001, 0.05) : 0.0, dist = uni(8, 40);
+  PointSet<PT> cloud;
+  for (int i = 0; i < n; ++i) {
+    PT q = mk<PT, DIM>(IV(DIM, 0));
+    if (shape == 2) {for (size_t a = 0; a < DIM; ++a) {q[a] = (S)(uni(-6, 6) + (a == DIM - 1 ? dist : 0.0));}}
+    else {
+      double rr = 0;
+      for (size_t a = 0; a + 1 < DIM; ++a) {double x = uni(-6, 6); q[a] = (S)x; rr += x * x;}
+      q[DIM - 1] = (S)(dist + bend * rr + uni(-noise, noise));
+    }
+    cloud.push_back(q);
+  }
+  NormalSet<PT> normals(cloud.size()), normals2(cloud.size()); std::vector<S> curv(cloud.size());
+  NormalAndCurvatureEstimation<PT> est((size_t)k);
+  est.compute(cloud, normals, curv);
+  est.compute(cloud, normals2);
+  double maxSin = 0, maxCurv = 0; int checked = 0; bool sameOverloads = true;
+  std::vector<std::pair<double, int>> d(n);
+  for (int t = 0; t < 60; ++t) {
+    const int i = (int)r.range(0, n - 1);
+    for (int j = 0; j < n; ++j) {double s = 0; for (size_t a = 0; a < DIM; ++a) {double e = (double)cloud[j][a] - (double)cloud[i][a]; s += e * e;} d[j] = {s, j};}
+    std::partial_sort(d.begin(), d.begin() + k + 1, d.end());
+    const double dk = d[k - 1].first, dk1 = d[k].first;
+    if (!(dk1 - dk > (sizeof(S) == 4 ? 1e-3 : 1e-7) * dk1)) {continue;}                // the set of k nearest neighbours is not clear-cut
+    Eigen::Matrix<double, DIM, 1> mean = Eigen::Matrix<double, DIM, 1>::Zero();
+    for (int j = 0; j < k; ++j) {for (size_t a = 0; a < DIM; ++a) {mean[a] += (double)cloud[d[j].second][a];}}
+    mean /= (double)k;
+    Eigen::Matrix<double, DIM, DIM> C = Eigen::Matrix<double, DIM, DIM>::Zero();
+    for (int j = 0; j < k; ++j) {
+      Eigen::Matrix<double, DIM, 1> v; for (size_t a = 0; a < DIM; ++a) {v[a] = (double)cloud[d[j].second][a] - mean[a];}
+      C += v * v.transpose();
+    }
+    C /= (double)k;
+    Eigen::SelfAdjointEigenSolver<Eigen::Matrix<double, DIM, DIM>> es(C);
+    const double sum = es.eigenvalues().sum();
+    if (!(sum > 0) || (es.eigenvalues()[1] - es.eigenvalues()[0]) / sum < 0.05) {continue;}
+    Eigen::Matrix<double, DIM, 1> ref = es.eigenvectors().col(0), got;
+    for (size_t a = 0; a < DIM; ++a) {got[a] = (double)normals[i][a]; if (normals[i][a] != normals2[i][a]) {sameOverloads = false;}}
+    const double c = std::fabs(ref.dot(got)) / got.norm();
+    maxSin = std::max(maxSin, std::sqrt(std::max(0.0, 1 - c * c)));
+    maxCurv = std::max(maxCurv, std::fabs((double)curv[i] - es.eigenvalues()[0] / sum));
+    ++checked;
+  }
+  auto u9 = [](double x) {double v = std::ceil(x * 1e9); return v < 2e9 ? (long long)v : 2000000000LL;};
+  out.put(vh::Ev("leastvar").i("dim", DIM).i("type", type).i("float", sizeof(S) == 4).i("k", k).i("n", n).i("checked", checked).b("sameOverloads", sameOverloads)
+    .vec("res", IV{u9(maxSin), u9(maxCurv)}));
+}
+
 int main(int argc, char ** argv)
 {
   if (argc != 5 || std::string(argv[1]) != "random") {std::fprintf(stderr, "usage: drive_normals random seed n out\n"); return 3;}
@@ -193,6 +255,16 @@ int main(int argc, char ** argv)
       case 5: run<HomogeneousCoordinates2f, 2>(r, 5, out); break;
       case 6: run<HomogeneousCoordinates3d, 3>(r, 6, out); break;
       default: run<HomogeneousCoordinates3f, 3>(r, 7, out);
+    }
+    switch ((k / 8 + k) % 8) {
+      case 0: leastVariance<Eigen::Vector2d, 2>(r, 0, out); break;
+      case 1: leastVariance<Eigen::Vector2f, 2>(r, 1, out); break;
+      case 2: leastVariance<Eigen::Vector3d, 3>(r, 2, out); break;
+      case 3: leastVariance<Eigen::Vector3f, 3>(r, 3, out); break;
+      case 4: leastVariance<HomogeneousCoordinates2d, 2>(r, 4, out); break;
+      case 5: leastVariance<HomogeneousCoordinates2f, 2>(r, 5, out); break;
+      case 6: leastVariance<HomogeneousCoordinates3d, 3>(r, 6, out); break;
+      default: leastVariance<HomogeneousCoordinates3f, 3>(r, 7, out);
     }
   }
   std::printf("%lld\n", out.lines);
